@@ -155,11 +155,9 @@ theorem bits_congr (f : Fmt) (wf : f.WF) {x y : Q} (hx : 0 < x.den) (hy : 0 < y.
   Morlock.Model.Flt.bits_congr f wf hx hy ((Q.beq_iff x y).mp h)
 
 /-- the pattern of the rounded value is the pattern computed from `x` (what the driver prints is `bits32` of a value
-that has been rounded already).  The side condition excludes only a negative `x` that underflows to zero: there
-`bits f x` is the pattern of `−0` (sign bit only) while `rnd f x = 0` has pattern `0`. -/
-theorem bits_rnd (f : Fmt) (wf : f.WF) {x y : Q} (hd : 0 < x.den) (h : rnd f x = some y) (hz : x.num < 0 → y.num ≠ 0) :
-    bits f y = bits f x :=
-  Morlock.Model.Flt.bits_rnd f wf hd h hz
+that has been rounded already); no side condition: a value that rounds to zero has pattern `0` whatever its sign -/
+theorem bits_rnd (f : Fmt) (wf : f.WF) {x y : Q} (hd : 0 < x.den) (h : rnd f x = some y) : bits f y = bits f x :=
+  Morlock.Model.Flt.bits_rnd f wf hd h
 
 example : bits32 ⟨1, 10⟩ = some 0x3DCCCCCD := by decide +kernel
 example : bits32 ⟨1, 3⟩ = some 0x3EAAAAAB := by decide +kernel
@@ -167,8 +165,9 @@ example : bits32 ⟨7, 2⟩ = some 0x40600000 := by decide +kernel
 example : bits32 ⟨(2 ^ 24 - 1) * 2 ^ 104, 1⟩ = some 0x7F7FFFFF := by decide +kernel
 example : bits32 ⟨1, 2 ^ 149⟩ = some 1 := by decide +kernel
 example : ofBits f32 0x3DCCCCCD = rnd f32 ⟨1, 10⟩ := by rfl
-/-- the excluded corner of `bits_rnd` -/
-example : bits32 ⟨-1, 2 ^ 151⟩ = some 0x80000000 ∧ (rnd f32 ⟨-1, 2 ^ 151⟩).bind bits32 = some 0 := by decide +kernel
+/-- a negative value that underflows to zero: pattern `0` (not the sign bit), as for its rounding -/
+example : bits32 ⟨-1, 2 ^ 151⟩ = some 0 ∧ (rnd f32 ⟨-1, 2 ^ 151⟩).bind bits32 = some 0 := by decide +kernel
+example : bits32 ⟨-1, 2 ^ 149⟩ = some 0x80000001 := by decide +kernel
 
 /-! ## 7. Division and square root -/
 
@@ -205,6 +204,18 @@ theorem sqrt_isSome (f : Fmt) (wf : f.WF) {x : Q} (hd : 0 < x.den) (h0 : 0 ≤ x
     (h : x.num.toNat * pd (2 * f.emax) ≤ x.den * pn (2 * f.emax)) : (sqrt f x).isSome :=
   Morlock.Model.Flt.sqrt_isSome f wf hd h0 h
 theorem sqrt_neg (f : Fmt) {x : Q} (h : x.num < 0) : sqrt f x = none := Morlock.Model.Flt.sqrt_neg f h
+
+/-- `sqrt` is monotone -/
+theorem sqrt_mono (f : Fmt) (wf : f.WF) {x y x' y' : Q} (hx : 0 < x.den) (hy : 0 < y.den)
+    (hle : Q.le x y = true) (h : sqrt f x = some x') (h' : sqrt f y = some y') : Q.le x' y' = true :=
+  (Q.le_iff x' y').mpr (Morlock.Model.Flt.sqrt_mono f wf hx hy ((Q.le_iff x y).mp hle) h h')
+
+/-- perfect squares have exact float64 roots (`sqrt_sq_nat`: for any format and `k < 2^p`; `sqrtPos_exact`: for the square of
+any number of the format) -/
+theorem sqrt_int_exact (k : Nat) (hk : k < 2 ^ 26) : sqrt f64 (Q.ofNat (k * k)) = some (Q.ofNat k) :=
+  Morlock.Model.Flt.sqrt_int_exact k hk
+
+example : sqrt f64 (Q.ofNat 49) = some (Q.ofNat 7) := sqrt_int_exact 7 (by decide)
 
 example : sqrtPos f64 2 1 = some (6369051672525773, -52) := by decide +kernel   -- √2 = 0x3FF6A09E667F3BCD
 example : (sqrt f64 ⟨9, 4⟩).bind (bits f64) = some 0x3FF8000000000000 := by decide +kernel   -- √2.25 = 1.5
